@@ -32,14 +32,14 @@ class Batch:
         self.items = []
 
     def add(self, on_done, wd, stem, cfile, contracts, harness, target, replace=(), attempts=(("concrete", "sat", 300),), unwind=66, defs=(),
-            cbmc_flags=(), loop_contracts=False):
+            cbmc_flags=(), loop_contracts=False, plain=False):
         with open(os.path.join(wd, stem + "_contracts.h"), "w") as f:
             f.write(contracts)
         with open(os.path.join(wd, stem + "_harness.h"), "w") as f:
             f.write(harness)
         task = {"cfile": cfile, "contracts": stem + "_contracts.h", "harness": stem + "_harness.h", "target": target, "replace": list(replace),
                 "unwind": unwind, "workdir": wd, "stem": stem, "attempts": list(attempts), "defs": list(defs), "cbmc_flags": list(cbmc_flags),
-                "loop_contracts": loop_contracts}
+                "loop_contracts": loop_contracts, "plain": plain}
         self.items.append((task, on_done))
 
     def run(self, workers=16):
